@@ -32,6 +32,7 @@ type frame struct {
 	phitemps         []Value
 	curPos           token.Pos
 	g                *goroutine
+	skipPhis         bool
 }
 
 func shortStack() string {
@@ -175,6 +176,9 @@ func (e *Engine) visitInstr(fr *frame, instr ssa.Instruction) (ret bool) {
 		ct, ok := c.(*sym.Term)
 		if !ok {
 			e.unsupported(fmt.Sprintf("branch on %s at %s", describe(c), e.where(fr)))
+		}
+		if !ct.IsConst() && e.tryIfConvert(fr, ct) {
+			return false
 		}
 		succ := 1
 		if e.Branch(ct) {
@@ -583,6 +587,10 @@ func (e *Engine) executePhis(fr *frame) []ssa.Instruction {
 		}
 	}
 	nonPhis := fr.block.Instrs[firstNonPhi:]
+	if fr.skipPhis {
+		fr.skipPhis = false
+		return nonPhis
+	}
 	if firstNonPhi > 0 {
 		phis := fr.block.Instrs[:firstNonPhi]
 		predIndex := -1
@@ -764,4 +772,140 @@ func (e *Engine) protectedInitCall(fr *frame, instr *ssa.Call, fn Value, args []
 		}
 	}()
 	return e.call(fr, instr.Pos(), fn, args)
+}
+
+// ---- if-conversion: a && b, a || b, min/max style diamonds are evaluated on
+// both arms and merged with ite instead of forking the path.
+
+func pureInstr(in ssa.Instruction) bool {
+	switch in := in.(type) {
+	case *ssa.BinOp:
+		switch in.Op {
+		case token.QUO, token.REM:
+			return false
+		}
+		return true
+	case *ssa.UnOp:
+		return in.Op != token.ARROW
+	case *ssa.Convert, *ssa.ChangeType, *ssa.ChangeInterface, *ssa.Field, *ssa.FieldAddr, *ssa.Extract, *ssa.MakeInterface, *ssa.DebugRef:
+		return true
+	case *ssa.IndexAddr:
+		_, isConst := in.Index.(*ssa.Const)
+		return isConst
+	case *ssa.Call:
+		if b, ok := in.Call.Value.(*ssa.Builtin); ok {
+			return b.Name() == "len" || b.Name() == "cap"
+		}
+		return false
+	case *ssa.TypeAssert:
+		return in.CommaOk
+	}
+	return false
+}
+
+// pureArm reports whether blk (entered only from from) consists of pure
+// instructions and ends in a jump, returning the join block.
+func pureArm(blk, from *ssa.BasicBlock) (*ssa.BasicBlock, bool) {
+	if len(blk.Preds) != 1 || blk.Preds[0] != from || len(blk.Instrs) > 12 {
+		return nil, false
+	}
+	n := len(blk.Instrs)
+	j, ok := blk.Instrs[n-1].(*ssa.Jump)
+	if !ok {
+		return nil, false
+	}
+	_ = j
+	for _, in := range blk.Instrs[:n-1] {
+		if _, isPhi := in.(*ssa.Phi); isPhi {
+			return nil, false
+		}
+		if !pureInstr(in) {
+			return nil, false
+		}
+	}
+	return blk.Succs[0], true
+}
+
+func (e *Engine) specExec(fr *frame, blk *ssa.BasicBlock) (ok bool) {
+	defer func() {
+		if r := recover(); r != nil {
+			if _, isT := r.(targetPanic); isT {
+				ok = false
+				return
+			}
+			panic(r)
+		}
+	}()
+	save := e.symBranches
+	for _, in := range blk.Instrs[:len(blk.Instrs)-1] {
+		e.visitInstr(fr, in)
+	}
+	return e.symBranches == save
+}
+
+func (e *Engine) tryIfConvert(fr *frame, cond *sym.Term) bool {
+	b := fr.block
+	t, f := b.Succs[0], b.Succs[1]
+	var join *ssa.BasicBlock
+	var arms []*ssa.BasicBlock // blocks to execute speculatively
+	predT, predF := t, f         // predecessors of join for the true / false outcome
+	if jt, ok := pureArm(t, b); ok && jt == f {
+		join, arms, predT, predF = f, []*ssa.BasicBlock{t}, t, b
+	} else if jf, ok := pureArm(f, b); ok && jf == t {
+		join, arms, predT, predF = t, []*ssa.BasicBlock{f}, b, f
+	} else if jt, ok1 := pureArm(t, b); ok1 {
+		if jf, ok2 := pureArm(f, b); ok2 && jf == jt {
+			join, arms = jt, []*ssa.BasicBlock{t, f}
+		}
+	}
+	if join == nil {
+		return false
+	}
+	// the join must start with phis only depending on which arm was taken
+	idxT, idxF := -1, -1
+	for i, p := range join.Preds {
+		if p == predT {
+			idxT = i
+		}
+		if p == predF {
+			idxF = i
+		}
+	}
+	if idxT < 0 || idxF < 0 || idxT == idxF {
+		return false
+	}
+	savePos := fr.curPos
+	for _, a := range arms {
+		if !e.specExec(fr, a) {
+			fr.curPos = savePos
+			return false
+		}
+	}
+	// merge phis
+	var phis []*ssa.Phi
+	var vals []Value
+	for _, in := range join.Instrs {
+		phi, ok := in.(*ssa.Phi)
+		if !ok {
+			break
+		}
+		vt, vf := fr.get(phi.Edges[idxT]), fr.get(phi.Edges[idxF])
+		tt, ok1 := vt.(*sym.Term)
+		tf, ok2 := vf.(*sym.Term)
+		if ok1 && ok2 && tt.W == tf.W {
+			phis = append(phis, phi)
+			vals = append(vals, e.T.Ite(cond, tt, tf))
+			continue
+		}
+		fr.curPos = savePos
+		return false
+	}
+	for i, phi := range phis {
+		fr.env[phi] = vals[i]
+	}
+	e.tick(8)
+	// continue in join after its phis: emulate by setting prevBlock to a marker
+	fr.prevBlock, fr.block = nil, join
+	fr.skipPhis = true
+	return true
 }
